@@ -52,6 +52,9 @@ class ConclusionSelector(LogicalBinaryOperator, ABC):
         required_output = {
             k: v for k, v in output.bindings.items() if k in required_vars
         }
+        # the same binding may be concluded by different branches (e.g. a next rule, or an alternative that is over less
+        # variables than the branch before it), only a repetition of the same conclusions is a duplicate.
+        required_output.update({conclusion._id_: True for conclusion in conclusions})
 
         if not self.concluded_before[not self._is_false_].check(required_output):
             self._conclusion_.update(conclusions)
